@@ -199,7 +199,9 @@ carquet_status_t carquet_snappy_decompress(
         }
     }
 
-    if ((size_t)(op - dst) != uncompressed_len) {
+    /* The elements must produce exactly the declared length: anything left
+     * in the input would decode to output beyond it */
+    if ((size_t)(op - dst) != uncompressed_len || ip != iend) {
         return CARQUET_ERROR_INVALID_COMPRESSED_DATA;
     }
 
